@@ -322,15 +322,16 @@ fn process_removes(strings: &mut Vec<Dependency<String>>) {
 }
 
 pub fn dependency_from_string(dep_name: &String) -> Dependency<String> {
-    match dep_name.as_bytes()[0] {
-        b'?' => Dependency::Soft(dep_name[1..].to_string()),
+    // (an empty name is kept as a hard dependency on "", which no module satisfies)
+    match dep_name.as_bytes().first() {
+        Some(b'?') => Dependency::Soft(dep_name[1..].to_string()),
         _ => Dependency::Hard(dep_name.clone()),
     }
 }
 
 pub fn dependency_from_string_if(dep_name: &String, other: &str) -> Dependency<String> {
-    match dep_name.as_bytes()[0] {
-        b'?' => Dependency::IfThenSoft(other.to_string(), dep_name[1..].to_string()),
+    match dep_name.as_bytes().first() {
+        Some(b'?') => Dependency::IfThenSoft(other.to_string(), dep_name[1..].to_string()),
         _ => Dependency::IfThenHard(other.to_string(), dep_name.clone()),
     }
 }
